@@ -3,6 +3,7 @@ from .. import astx
 from .. import db as D
 from .. import prog as P
 from .. import terms as T
+from ..rules import slots
 from ..rules import guard as G
 from ..rules import rel, life as L
 from . import c03
@@ -179,6 +180,10 @@ def run(chk, tier):
     own_rule(chk, db)
     stack_deleg(chk, db)
     pair_rule(chk, db)
+    # SLOTS-W: a raw size store that may grow the vector is on a path that writes the newly exposed slots
+    nsl = slots.check(chk, D.load("plain"), ["static_vector", "inplace_vector"], lambda r: False, only=("W",))
+    if chk.rule_instances.get("SLOTS-W", 0) < 5:
+        chk.analysis_broken("SLOTS-W: only %d growing size stores found in the vectors (floor 5)" % chk.rule_instances.get("SLOTS-W", 0))
     nrel = rel.check(chk, db, ["_vector/static_vector.hpp", "_stack/stack.hpp"])
     if nrel < 12:
         chk.analysis_broken("REL: only %d vector/stack operators modelled" % nrel)
